@@ -205,4 +205,10 @@ def Identity.unwrapLog (P : Prims) : Identity â†’ List Stanza â†’ UnwrapResult Ã
 
 def Identity.unwrap (P : Prims) (i : Identity) (ss : List Stanza) : UnwrapResult := (i.unwrapLog P ss).1
 
+/-- an EMPTY key from this identity is an empty but non-nil slice (ssh-rsa: `rsa.DecryptOAEP` of an empty message),
+    not nil (ssh-ed25519: the AEAD's `Open` of an empty plaintext; the native types never return an empty key) -/
+def Identity.emptyNonNil : Identity â†’ Bool
+  | .sshRsa _ _ => true
+  | _ => false
+
 end AgeModel
